@@ -924,7 +924,7 @@ def explore(U, depth, full, stats, memo, trace):
         U.restore(snap)
 
 
-def confirm_from_scratch(init, big, labels, full=True):
+def confirm_from_scratch(init, big, labels):
     """Re-execute a failing trace from a newly constructed universe using only the real operations
     (no state restoring); returns the WF failures after the last operation."""
     U = Universe(init, big)
@@ -1142,6 +1142,7 @@ def random_sequences(w, cfg):
                 else: only = ('unit', rng.randrange(len(U.units)), rng.choice(('pair', 'disc', 'replace', 'insert', 'insert')))
                 ops = gen_ops(U, True, only)
                 if ops: break
+            if not ops: break
             bykind = {}
             for o in ops: bykind.setdefault(o.kind, []).append(o)
             kind = rng.choice(sorted(bykind))
